@@ -59,7 +59,7 @@ Record fctx (K : fld) := MkFctx {
   c_rabs_opp : forall a, c_rabs (- a) = c_rabs a;
   c_rabs_inv : forall a, c_isR a -> a <> 0 -> c_rabs (1 / a) = 1 / c_rabs a;
   c_rabs_nz : forall a, c_isR a -> a <> 0 -> c_rabs a <> 0;
-  c_rabs_mul : forall a b, c_rabs (a * b) = c_rabs a * c_rabs b;
+  c_rabs_mul : forall a b, c_isR a -> c_isR b -> c_rabs (a * b) = c_rabs a * c_rabs b;
   c_rabs_pi : c_rabs c_pi = c_pi;
   c_rabs_2 : c_rabs (1 + 1) = 1 + 1;
   c_E_add : forall a b, c_E (a + b) = c_E a * c_E b;
@@ -80,7 +80,9 @@ Record fctx (K : fld) := MkFctx {
   c_se_def : forall x, c_se x = 1 / c_ch x;
   c_cs_def : forall x, c_cs x = 1 / c_sh x;
   c_dt_nz : c_dt <> 0;
-  c_ab_sg : forall x, c_ab x = x * c_sg x
+  c_ab_sg : forall x, c_ab x = x * c_sg x;
+  c_sn0 : c_sn 0 = 1;
+  c_ab_rabs : forall a, c_isR a -> c_ab a = c_rabs a
 }.
 Arguments c_pi {K}.
 Arguments c_j {K}.
@@ -139,6 +141,8 @@ Arguments c_se_def {K}.
 Arguments c_cs_def {K}.
 Arguments c_dt_nz {K}.
 Arguments c_ab_sg {K}.
+Arguments c_sn0 {K}.
+Arguments c_ab_rabs {K}.
 
 Section Spec.
 Variable K : fld.
@@ -179,7 +183,7 @@ Let rabs_1 : rabs 1 = 1 := c_rabs_1 C.
 Let rabs_opp : forall a, rabs (- a) = rabs a := c_rabs_opp C.
 Let rabs_inv : forall a, isR a -> a <> 0 -> rabs (1 / a) = 1 / rabs a := c_rabs_inv C.
 Let rabs_nz : forall a, isR a -> a <> 0 -> rabs a <> 0 := c_rabs_nz C.
-Let rabs_mul : forall a b, rabs (a * b) = rabs a * rabs b := c_rabs_mul C.
+Let rabs_mul : forall a b, isR a -> isR b -> rabs (a * b) = rabs a * rabs b := c_rabs_mul C.
 Let rabs_pi : rabs pi = pi := c_rabs_pi C.
 Let rabs_2 : rabs (1 + 1) = 1 + 1 := c_rabs_2 C.
 Let E_add : forall a b, E (a + b) = E a * E b := c_E_add C.
@@ -201,6 +205,8 @@ Let se_def : forall x, se x = 1 / ch x := c_se_def C.
 Let cs_def : forall x, cs x = 1 / sh x := c_cs_def C.
 Let dt_nz : dt <> 0 := c_dt_nz C.
 Let ab_sg : forall x, ab x = x * sg x := c_ab_sg C.
+Let sn0 : sn 0 = 1 := c_sn0 C.
+Let ab_rabs : forall a, isR a -> ab a = rabs a := c_ab_rabs C.
 
 Definition two : K := 1 + 1.
 Lemma two_nz : two <> 0.
@@ -389,7 +395,7 @@ Proof.
   assert (Rpp : isR (pi * pi)) by (apply isR_mul; exact isR_pi).
   assert (Rip : isR (1 / (pi * pi))) by (apply isR_inv; exact Rpp).
   assert (Hip : 1 / (pi * pi) <> 0) by (apply div_nz; [apply one_nz | exact Hpp]).
-  assert (Habs : rabs (pi * pi) = pi * pi) by (rewrite rabs_mul, rabs_pi; reflexivity).
+  assert (Habs : rabs (pi * pi) = pi * pi) by (rewrite (rabs_mul _ _ isR_pi isR_pi), rabs_pi; reflexivity).
   repeat apply conj.
   - (* t^n <-> (j/2pi)^n delta^(n) *)
     intros n. dual_by (FP_scale (fpow (j / tpi) n) _ _ (FP_deltan n)); [apply eqae_refl|].
@@ -496,7 +502,7 @@ Proof. intros u. reflexivity. Qed.
 Theorem varchange_sound A B X XA : vform A X XA -> vform B X (fun u => XA (vscale A / vscale B * u)).
 Proof. intros H u. rewrite H. f_equal. pose proof (vscale_nz A). pose proof (vscale_nz B). field. split; assumption. Qed.
 Lemma rabs_tpi : rabs tpi = tpi.
-Proof. unfold tpi, two. rewrite rabs_mul, rabs_2, rabs_pi. reflexivity. Qed.
+Proof. unfold tpi. rewrite (rabs_mul _ _ isR_two isR_pi). unfold two. rewrite rabs_2, rabs_pi. reflexivity. Qed.
 (* delta(omega / 2 pi) = 2 pi delta(omega), and for derivatives *)
 Theorem delta_omega n w : dl n (w / tpi) = fpow tpi (S n) * dl n w.
 Proof.
@@ -549,3 +555,14 @@ Proof.
 Qed.
 
 End Spec.
+
+Arguments FPair {K} C _ _.
+Arguments eqae {K} _ _.
+Arguments flip {K} _ _.
+Arguments IPair {K} C _ _.
+Arguments tpi {K} C.
+Arguments two {K}.
+Arguments vscale {K} C _.
+Arguments vform {K} C _ _ _.
+Arguments sigfun {K} C _ _.
+Arguments all_stable {K} C _.
